@@ -35,16 +35,15 @@ Qed.
 (* ------------------------------------------------------------------ *)
 (* a releasable site leaves its wait after a finite delay *)
 
-Definition rel_fires (raised : list comp) (r : rel) : bool :=
-  match r with RQuit c => memc c raised | RTimer _ => true end.
-
 Lemma rel_fires_delay : forall raised r,
   rel_fires raised r = true <-> exists d, rel_delay raised r = Some d.
 Proof.
-  intros raised [c|ms]; simpl.
+  intros raised [c|ms|c blocks]; unfold rel_fires, rel_delay.
   - destruct (memc c raised); split; intro H; try reflexivity; try discriminate; eauto.
     destruct H as [d H]; discriminate.
   - split; eauto.
+  - destruct (fires0 raised (RServe c blocks)); split; intro H; try reflexivity; try discriminate; eauto.
+    destruct H as [d H]; discriminate.
 Qed.
 
 Lemma fold_delay_some : forall raised l,
@@ -65,31 +64,50 @@ Lemma releasable_delay : forall raised s,
 Proof. intros raised s H; unfold site_delay; apply fold_delay_some; exact H. Qed.
 
 (* upper bound of a site's delay: its largest timer *)
-Definition max_timer (s : site) : Z :=
-  fold_right (fun r acc => match r with RTimer ms => Z.max ms acc | RQuit _ => acc end) 0 (s_rel s).
+Definition timer_of (r : rel) (acc : Z) : Z :=
+  match r with RTimer ms => Z.max ms acc | _ => acc end.
+
+Definition max_timer (s : site) : Z := fold_right timer_of 0 (s_rel s).
+
+Lemma fold_timer_nonneg : forall l, 0 <= fold_right timer_of 0 l.
+Proof. induction l as [|r l IH]; simpl; [lia|]. destruct r; simpl; lia. Qed.
+
+(* a release that fires at once or not at all *)
+Lemma fold_delay_le_zero : forall raised l d r (b : bool),
+  (forall y, fold_right (fun r acc => omin (rel_delay raised r) acc) None l = Some y ->
+             y <= fold_right timer_of 0 l) ->
+  rel_delay raised r = (if b then Some 0 else None) -> timer_of r (fold_right timer_of 0 l) = fold_right timer_of 0 l ->
+  omin (rel_delay raised r) (fold_right (fun r acc => omin (rel_delay raised r) acc) None l) = Some d ->
+  d <= fold_right timer_of 0 l.
+Proof.
+  intros raised l d r b IH Hr _ H. rewrite Hr in H. pose proof (fold_timer_nonneg l).
+  destruct b; simpl in H.
+  - destruct (fold_right _ None l) as [y|] eqn:E; simpl in H; inversion H; subst.
+    + specialize (IH y eq_refl); lia.
+    + lia.
+  - destruct (fold_right _ None l) as [y|] eqn:E; simpl in H; inversion H; subst.
+    apply IH; reflexivity.
+Qed.
 
 Lemma fold_delay_le : forall raised l d,
   fold_right (fun r acc => omin (rel_delay raised r) acc) None l = Some d ->
-  d <= fold_right (fun r acc => match r with RTimer ms => Z.max ms acc | RQuit _ => acc end) 0 l.
+  d <= fold_right timer_of 0 l.
 Proof.
   intros raised l; induction l as [|r l IH]; simpl; intros d H; [discriminate|].
-  destruct r as [c|ms]; simpl in H.
-  - destruct (memc c raised); simpl in H.
-    + destruct (fold_right _ None l) as [y|] eqn:E; simpl in H; inversion H; subst.
-      * specialize (IH y eq_refl); lia.
-      * clear; induction l as [|r l IHl]; simpl; [lia|]. destruct r; lia.
-    + destruct (fold_right _ None l) as [y|] eqn:E; simpl in H; inversion H; subst.
-      apply IH; reflexivity.
-  - destruct (fold_right _ None l) as [y|] eqn:E; simpl in H; inversion H; subst; lia.
+  destruct r as [c|ms|c blocks].
+  - apply (fold_delay_le_zero raised l d (RQuit c) (memc c raised) IH); [reflexivity | reflexivity | exact H].
+  - simpl in H. destruct (fold_right _ None l) as [y|] eqn:E; simpl in H; inversion H; subst; simpl.
+    + specialize (IH y eq_refl); lia.
+    + lia.
+  - apply (fold_delay_le_zero raised l d (RServe c blocks) (fires0 raised (RServe c blocks)) IH);
+      [reflexivity | reflexivity | exact H].
 Qed.
 
 Lemma site_delay_le : forall raised s d, site_delay raised s = Some d -> d <= max_timer s.
 Proof. intros raised s d H; unfold max_timer; eapply fold_delay_le; exact H. Qed.
 
 Lemma max_timer_nonneg : forall s, 0 <= max_timer s.
-Proof.
-  intro s; unfold max_timer; induction (s_rel s) as [|r l IH]; simpl; [lia|]. destruct r; lia.
-Qed.
+Proof. intro s; unfold max_timer; apply fold_timer_nonneg. Qed.
 
 (* ------------------------------------------------------------------ *)
 (* one stage *)
@@ -160,7 +178,8 @@ Proof.
   intros order table s Hwf Hin Hown. unfold wf_callers in Hwf; rewrite forallb_forall in Hwf.
   specialize (Hwf s Hin); rewrite Hown in Hwf.
   unfold releasable. rewrite existsb_exists in *. destruct Hwf as [r [Hr Hq]].
-  exists r; split; [exact Hr|]. destruct r as [c|ms]; [|discriminate]. rewrite memc_rev; exact Hq.
+  exists r; split; [exact Hr|]. destruct r as [c|ms|c blocks]; [|discriminate|discriminate].
+  simpl. rewrite memc_rev; exact Hq.
 Qed.
 
 (* ------------------------------------------------------------------ *)
@@ -240,7 +259,7 @@ Lemma callers_released : forall s, In s caller_sites ->
   releasable (rev stop_order) s = true.
 Proof.
   intros s Hin. apply (callers_released_gen stop_order code_sites s code_wf_callers).
-  - unfold code_sites; apply in_or_app; right; exact Hin.
+  - unfold code_sites; apply in_or_app; right; apply in_or_app; left; exact Hin.
   - unfold caller_sites in Hin; simpl in Hin.
     repeat (destruct Hin as [<-|Hin]; [reflexivity|]); contradiction.
 Qed.
